@@ -26,6 +26,17 @@ theorem sync_wrappers_await : sync_unregister_awaits_goodbyes = true ∧ sync_re
     sync_update_awaits_announcements = true := by
   simp [sync_unregister_awaits_goodbyes, sync_register_awaits_announcements, sync_update_awaits_announcements]
 
+/-- "or its instance is closed": `AsyncZeroconf.async_close` and `Zeroconf.close()` call (async_)unregister_all_services, and do so
+before `_close` / `_async_close` sets `done` -/
+theorem close_says_goodbye_first : async_close_unregisters_all = true ∧ async_close_goodbyes_before_done = true ∧
+    sync_close_unregisters_all = true ∧ sync_close_goodbyes_before_done = true := by
+  simp [async_close_unregisters_all, async_close_goodbyes_before_done, sync_close_unregisters_all, sync_close_goodbyes_before_done]
+
+/-- D27: `async_unregister_service` builds the goodbye packet itself, when it is called; the task re-sends that packet and no longer
+reads the `ServiceInfo` object -/
+theorem unregister_builds_goodbye : unregister_builds_goodbye_at_call = true := by
+  simp [unregister_builds_goodbye_at_call]
+
 /-- `async_send` sends nothing once `done` -/
 theorem send_is_noop_eq (d : Bool) : send_is_noop d = d := by simp [send_is_noop]
 
